@@ -198,7 +198,7 @@ func c03Data(spacing string) []core.SeriesSpec {
 func init() {
 	check.Register("C03/enum", func(c *check.Ctx) {
 		funcs := rangeFuncs()
-		ranges := []string{"15s", "30s", "45s", "1m", "90s", "100ms", "2m30s"}
+		ranges := []string{"15s", "30s", "45s", "1m", "90s", "100ms", "2m30s", "1s500ms", "2500ms"}
 		steps := []int64{15000, 30000, 45000, 120000}
 		spacings := []string{"10s", "30s", "irregular"}
 		sels := []string{`a`, `a offset 30s`, `a @ 300.000`, `a offset -45s`, `a @ end()`}
